@@ -2093,6 +2093,17 @@ fn is_rust_keyword(s: &str) -> bool {
       | "while"
       | "yield"
       | "box"
+      | "abstract"
+      | "become"
+      | "do"
+      | "final"
+      | "macro"
+      | "override"
+      | "priv"
+      | "try"
+      | "typeof"
+      | "unsized"
+      | "virtual"
   )
 }
 
